@@ -110,6 +110,54 @@ func init() {
 			fr.i.scopeEnd()
 			return nil
 		},
+		rt + "FillRandom": func(fr *frame, a []value) value {
+			fr.i.fillRandom(a[0].([]value))
+			return nil
+		},
+		rt + "SymbolicRand": func(fr *frame, a []value) value {
+			fr.i.symbolicRand = a[0].(bool)
+			return nil
+		},
+		"crypto/rand.Read": func(fr *frame, a []value) value {
+			fr.i.fillRandom(a[0].([]value))
+			return tuple{len(a[0].([]value)), iface{}}
+		},
+		// math/big values are opaque: only package initialisers of the script
+		// engine and chain parameters touch them; code under check must not
+		// inspect them (base58 etc. are bridged natively at a higher level)
+		"(*math/big.Int).Rsh":      bigRecv,
+		"(*math/big.Int).Lsh":      bigRecv,
+		"(*math/big.Int).Sub":      bigRecv,
+		"(*math/big.Int).Add":      bigRecv,
+		"(*math/big.Int).Mul":      bigRecv,
+		"(*math/big.Int).Div":      bigRecv,
+		"(*math/big.Int).Exp":      bigRecv,
+		"(*math/big.Int).Set":      bigRecv,
+		"(*math/big.Int).SetInt64": bigRecv,
+		"(*math/big.Int).SetUint64": bigRecv,
+		"(*math/big.Int).SetBytes": bigRecv,
+		"(*math/big.Int).SetString": func(fr *frame, a []value) value { return tuple{a[0], true} },
+		"math/big.NewInt": func(fr *frame, a []value) value {
+			p := fr.i.P.pkgByPath["math/big"]
+			cell := zero(p.Type("Int").Type())
+			return &cell
+		},
+		"github.com/btcsuite/btcd/btcec/v2.S256": func(fr *frame, a []value) value {
+			t := mustDeref(fr.fn.Signature.Results().At(0).Type())
+			cell := zero(t)
+			// allocate embedded parameter structs (opaque big.Int fields)
+			if st, ok := t.Underlying().(*types.Struct); ok {
+				for k := 0; k < st.NumFields(); k++ {
+					if pt, ok := st.Field(k).Type().Underlying().(*types.Pointer); ok {
+						if _, ok := pt.Elem().Underlying().(*types.Struct); ok {
+							inner := zero(pt.Elem())
+							cell.(structure)[k] = &inner
+						}
+					}
+				}
+			}
+			return &cell
+		},
 		rt + "IsConcrete": func(fr *frame, a []value) value {
 			_, ok := bytesOf(a[0])
 			return ok
@@ -364,6 +412,15 @@ func init() {
 		externals[k] = v
 	}
 	pkgInitStubs["time"] = initTime
+	pkgInitStubs["crypto/rand"] = func(i *interpreter, p *ssa.Package) {
+		g := p.Var("Reader")
+		vp := i.P.pkgByPath["verif/verifrt"]
+		if g == nil || vp == nil {
+			return
+		}
+		var cell value = iface{t: vp.Type("RandReader").Type(), v: structure{}}
+		i.globals[g] = &cell
+	}
 	pkgInitStubs["errors"] = func(i *interpreter, p *ssa.Package) {
 		if g := p.Var("ErrUnsupported"); g != nil {
 			e := callSSA(i, nil, token.NoPos, p.Func("New"), []value{"unsupported operation"}, nil)
@@ -942,4 +999,24 @@ func (i *interpreter) itev(a []value, t types.Type) value {
 		return a[2]
 	}
 	return unlift(i.tt.Ite(a[0].(*Term), i.lift(a[1]), i.lift(a[2])), t)
+}
+
+func (i *interpreter) fillRandom(p []value) {
+	for k := range p {
+		if i.symbolicRand {
+			p[k] = i.nondet("rand", 8)
+		} else {
+			i.randCtr++
+			p[k] = uint8(i.randCtr*131 + 7)
+		}
+	}
+}
+
+func bigRecv(fr *frame, a []value) value {
+	if p, ok := a[0].(*value); ok && p == nil {
+		bp := fr.i.P.pkgByPath["math/big"]
+		cell := zero(bp.Type("Int").Type())
+		return &cell
+	}
+	return a[0]
 }
